@@ -263,6 +263,9 @@ func (iter *Iterator) Get(outputArgs ...any) (err error) {
 	if !iter.started {
 		if len(outputArgs) == 1 {
 			if oc, ok := outputArgs[0].(*Outcome); ok {
+				if oc == nil {
+					return fmt.Errorf("got nil pointer to Outcome")
+				}
 				oc.result = iter.result
 				return nil
 			}
@@ -336,6 +339,9 @@ func (q *Query) GetAll(sliceArgs ...any) (err error) {
 
 	if len(sliceArgs) > 0 {
 		if outcome, ok := sliceArgs[0].(*Outcome); ok {
+			if outcome == nil {
+				return fmt.Errorf("got nil pointer to Outcome")
+			}
 			outcome.result = nil
 			sliceArgs = sliceArgs[1:]
 		}
